@@ -5,6 +5,7 @@ mod c01;
 #[cfg(any(verif_all, verif_c02))]
 #[path = "/verif/harness/ntp-proto/c02.rs"]
 mod c02;
-#[cfg(any(verif_all, verif_c37))]
+// (also compiled for C03, whose driver runs its controller-level cases through c37::run_case)
+#[cfg(any(verif_all, verif_c37, verif_c03))]
 #[path = "/verif/harness/ntp-proto/c37.rs"]
-mod c37;
+pub(crate) mod c37;
